@@ -7,3 +7,49 @@
 
 #![allow(missing_docs)]
 #![allow(unused)]
+
+/// Noise handshake / transport (module `crypto::noise` is crate-private).
+pub mod noise {
+    pub use crate::crypto::noise::{
+        handshake, HandshakeTransport, NoiseContext, NoiseSocket, MAX_FRAME_LEN,
+    };
+
+    pub const STATIC_KEY_DOMAIN: &str = crate::crypto::noise::STATIC_KEY_DOMAIN;
+    pub const MAX_READ_AHEAD_FACTOR: usize = crate::crypto::noise::MAX_READ_AHEAD_FACTOR;
+    pub const MAX_WRITE_BUFFER_SIZE: usize = crate::crypto::noise::MAX_WRITE_BUFFER_SIZE;
+}
+
+/// multistream-select (module `multistream_select` is private).
+pub mod multistream {
+    pub use crate::multistream_select::{
+        dialer_select_proto, listener_select_proto, webrtc_listener_negotiate, DialerSelectFuture,
+        HandshakeResult, HeaderLine, ListenerSelectFuture, ListenerSelectResult, Message,
+        Negotiated, NegotiatedComplete, NegotiationError, Protocol, ProtocolError, Version,
+        WebRtcDialerState,
+    };
+}
+
+/// Substream construction over an in-memory yamux stream.
+pub mod substream {
+    use crate::{
+        codec::ProtocolCodec, substream::Substream, transport::tcp::Substream as TcpSubstream,
+        types::SubstreamId, BandwidthSink, PeerId,
+    };
+    use tokio_util::compat::FuturesAsyncReadCompatExt;
+
+    /// What `TcpConnection` does with a negotiated yamux stream.
+    pub fn substream_from_yamux(
+        peer: PeerId,
+        substream_id: SubstreamId,
+        stream: crate::yamux::Stream,
+        codec: ProtocolCodec,
+    ) -> Substream {
+        let socket = FuturesAsyncReadCompatExt::compat(stream);
+        Substream::new_tcp(
+            peer,
+            substream_id,
+            TcpSubstream::new(socket, BandwidthSink::new(), None),
+            codec,
+        )
+    }
+}
